@@ -9,6 +9,7 @@ CONSTANTS
   Ops = {"create", "link", "delete"}
   Faults = {}
   Script <- Script_Links
+  CopyKeep = {}
 VIEW View
 INVARIANT TypeOK
 INVARIANT NameUnique
